@@ -3,6 +3,21 @@ import json, os
 V = os.path.dirname(os.path.dirname(os.path.abspath(__file__)))
 
 CHECKS = {
+ "C09": dict(
+   technique="TLA+ spec of forward-mode seeding/extraction (direction sets, polarisation identities, exact interpolation) over the TPS algebra, TLC exhaustive over monomials x integer points; instances replayed through UTPM.init_* / UTPM arithmetic / UTPM.extract_*",
+   text="TLC proves extract o propagate o init = analytic derivative for Jacobian, J v, Hessian, H v and all d-th order partials for every monomial up to the degree bound in N <= 3 (4) variables at every integer point of the catalogue (by linearity: all polynomials of that degree); each instance is evaluated through the real drivers with float and int points, plus integer combinations and exp/sin compositions (chain rule on the exact partials), and the direction sets produced by init_hessian / init_hess_vec are compared with the spec's sets.",
+   note="N <= 3, degree <= 3, tensor order <= 2 (quick); N <= 4, degree <= 4, order <= 3 (thorough); non-vector inputs of init_tensor are documented as unsupported",
+   design="3.8, 4 (C09)"),
+ "C16": dict(
+   technique="TLA+ transition relation 'apply d/dx once' on closed differential rings (NthDeriv.tla) with normal forms cross-validated against the TPS algebra; TLC prints the normal form of every (function, order); replay evaluates it with NumPy/SciPy generator values",
+   text="Order n+1 is the derivative of order n by construction of the spec (sum/product/chain rule on generators); for the algebraic families the normal forms are additionally checked in TLC against independently computed Taylor coefficients. Every exported function of algopy.nthderiv is compared with the spec's normal form for all n <= 8 (10), parameters (m; a,b incl. negative a) and a grid of domain points.",
+   note="tan/tanh need mpmath inside algopy (absent) and are outside the property's list; generator values from NumPy/SciPy; known finding: erf/erfi return nan at x=0 for n>=2",
+   design="3.9, 4 (C16)"),
+ "C17": dict(
+   technique="TLA+ spec of conversions as index maps and of LAPACK pivot vectors as interchange sequences (Conv.tla), TLC exhaustive over all N! pivot vectors and the shape catalogue; replayed bit-wise",
+   text="TLC proves bijectivity/round-trip theorems of the conversion index maps and, for all N! pivot vectors with N <= 5 (6), that PermOf is a permutation whose sign equals the inversion parity. Every pivot vector is realised by a matrix A = P L U whose partial pivoting yields exactly that vector; scipy.linalg.lu_factor must return it and utils.piv2mat/piv2det, UTPM.lu2, UTPM.lu and UTPM.det must reassemble A (mod t^D); all index maps (utpm2dirs, base/direction round trips, symvec/vecsym for F/L/U on ndarray and UTPM, shift, as_utpm/ndarray2utpm on C-ordered, transposed and nested containers) are compared bit-wise.",
+   note="shape catalogue of 5 element shapes, D,P <= 3; combine_blocks and coeff_op are covered only through as_utpm-style containers",
+   design="3.9, 4 (C17)"),
  "C03": dict(
    technique="TLA+ transition system of the tracer's reverse sweep (Tracer.tla: adjoint buffers mirroring views, saved/restored in-place writes, roll-forward) model-checked against ybar^T J from forward-mode series carried in a fresh reference execution; TLC behaviours replayed through the real CGraph; C-matrix x mpmath for analytic pullbacks",
    text="TLC checks AdjointCorrect (reverse sweep = ybar^T J along the curve, every Taylor order) for every program up to the instruction bound over {views, in-place buffer writes, +,-,*,/, integer powers, sum, constants, reversed views}, from a plain and a buffered prefix, D=2, non-symmetric seeds; every behaviour is replayed through real Function/CGraph objects and xbar compared exactly. Unary analytic functions recorded through the tracer are checked against spec C-matrix x mpmath for all coefficient patterns (two sweeps). The remaining API (linear algebra, factorizations, reductions with axis, broadcasting with constants, fft, tile, reshape of transposed data) is checked with the dot-product identity of the property against forward mode.",
